@@ -90,7 +90,7 @@ def run(c):
     cases = os.path.join(c.work, "c15.cases")
     cov = {"rule": RULE, "evaluations": 0, "distinct_nontrivial": 0, "samples": [], "disagreements_checked": 0}
     if okg and okb:
-        rc, out = c.harness(["c15", cases], timeout=3000)
+        rc, out = c.harness(["c15", cases], timeout=1500)
         if rc != 0:
             c.broken.append("harness c15 failed (rc=%d): %s" % (rc, out[-1500:]))
             c.violation({"kind": "implementation crashed or hung while being observed", "output": out[-3000:]}, no_input=True)
